@@ -32,6 +32,7 @@ class Cancel(object):
         self.flow = flow
         self.ir = ir
         self.requested = False
+        self.by_action = False
         self.inflight_at = None
         self.live_at = set()
         self.published = {}  # var -> set of json values seen published (model side, from the IR)
@@ -52,11 +53,11 @@ class Cancel(object):
                     self.live_at.add("items-not-offered")
             if self.flow.has_due():
                 self.live_at.add("due-work")
-        if self.flow.canceled_action and not self.requested and s in ("canceling", "canceled"):
-            # an action reporting `canceled` cancels the workflow as well
-            self.requested = True
-            self.inflight_at = len(drv.inflight)
-        if not self.requested:
+        if self.flow.canceled_action and not self.requested:
+            # an action that reports `canceled` before any request cancels the workflow by itself; the
+            # property speaks of cancellation that is *requested*: such runs are not assessed
+            self.by_action = True
+        if not self.requested or self.by_action:
             return
         if rec["offers"]:
             raise Violation("offer-after-cancel", {"offers": [(o["id"], o["route"], o["items"]) for o in rec["offers"]], "definition": drv.defn, "history": hist()})
@@ -115,6 +116,9 @@ def run(scn, stats):
         return
     d = r.d
     stats.label("status:" + d.status())
+    if cz.by_action:
+        stats.label("canceled-by-action-report")
+        return
     if r.engine_exception is not None or r.truncated or not cz.requested:
         stats.label("no-cancel-reached" if not cz.requested else "aborted")
         return
